@@ -890,6 +890,18 @@ func genC18(r *rngT, n int, tier string) {
 				m.name = []string{"2D_POS", "_RAW", "9", "_"}[r.Intn(4)] + fmt.Sprint(k)
 				stat("c18-bad-msg-name")
 			}
+			if r.Intn(20) == 0 { // a power that does not fit 64 bits: not a value, the set must be refused (not turned into a wrapped constant)
+			over:
+				for fi := range fs {
+					for ei := range fs[fi].enums {
+						if len(fs[fi].enums[ei].entries) > 0 {
+							fs[fi].enums[ei].entries[0].value = []string{"2**64", "3**41", "10**20", "4294967296**2", "2**100", "7**23", "65536**4", "18446744073709551615**2"}[r.Intn(8)]
+							stat("c18-power-overflow")
+							break over
+						}
+					}
+				}
+			}
 			jobs = append(jobs, &genJob{op: "gencheck " + encSet(fs), fs: fs, k: k})
 			stat(fmt.Sprintf("c18-files-%d", len(fs)))
 			k++
